@@ -868,3 +868,157 @@ def c24(tier):
     ck.trust(*TRUST[:2])
     ck.assume("bounded design space D")
     return ck.finish()
+
+
+# =========================================================================================== C23
+def expand_weights(d):
+    """copy-expanded twin: every weighted level l (weight w) of a non-derived factor becomes w levels 'l#1'..'l#w' of weight 1;
+    derivation tables of dependent factors are re-keyed so that every copy behaves as l.  -> (twin description, rename-back map)"""
+    import copy
+    import itertools
+    t = copy.deepcopy(d)
+    back = {}
+    copies = {}
+    for F in t["factors"]:
+        if model.is_derived(F):
+            continue
+        new = []
+        for l, w in F["levels"]:
+            if w > 1:
+                names = [f"{l}#{i + 1}" for i in range(w)]
+                copies[(F["name"], l)] = names
+                for nm in names:
+                    back[(F["name"], nm)] = l
+                    new.append([nm, 1])
+            else:
+                new.append([l, 1])
+        F["levels"] = new
+    for F in t["factors"]:
+        if not model.is_derived(F):
+            continue
+        dv = F["derive"]
+        newtab = {}
+        for key, acc in dv["table"].items():
+            per_dep = [part.split(",") for part in key.split("|")]
+            choices = []
+            for dep, vals in zip(dv["deps"], per_dep):
+                choices.append([copies.get((dep, v), [v]) for v in vals])
+            for combo in itertools.product(*[itertools.product(*c) for c in choices]):
+                newtab["|".join(",".join(vs) for vs in combo)] = acc
+        dv["table"] = newtab
+    t["name"] = d["name"] + "-twin"
+    return t, back
+
+
+def _twin_eval(arg):
+    d, twin, back = arg
+    out = {"name": d["name"]}
+    names = SC.user_factors(d)
+    for tag, dd in (("weighted", d), ("twin", twin)):
+        for strat in ("IterateSATGen", "RandomGen"):
+            try:
+                block, _ = model.build(dd)
+                res = SC.runner.synth(block, 8000, strat)
+                keys = []
+                for e in res:
+                    if tag == "twin":
+                        e = {f: [back.get((f, v), v) for v in vals] for f, vals in e.items()}
+                    keys.append(SC.key_of_exp(e, names))
+                out[f"{tag}:{strat}"] = dict(n=len(res), keys=keys, T=block.trials_per_sample())
+            except Exception as e:
+                out[f"{tag}:{strat}"] = dict(exception=[type(e).__name__, str(e)[:200]])
+    return out
+
+
+def weighted_designs(tier, sd):
+    from spec import designs as DS
+    c2w = DS.fac("c", [["r", 2], ["g", 1]])
+    d2, d2w = DS.fac("d", ["x", "y"]), DS.fac("d", [["x", 2], ["y", 1]])
+    e3w = DS.fac("e", [["r", 1], ["g", 2], ["b", 1]])
+    out = [DS.D("w-crossed", [c2w], DS.cross(["c"], ["c"])),
+           DS.D("w-crossed-2x2", [c2w, d2], DS.cross(["c", "d"], ["c", "d"])),
+           DS.D("w-crossed-both", [c2w, d2w], DS.cross(["c", "d"], ["c", "d"])),
+           DS.D("w-crossed-plus-uncrossed", [c2w, d2], DS.cross(["c", "d"], ["c"])),
+           DS.D("w-uncrossed", [DS.fac("c", DS.A2), d2w], DS.cross(["c", "d"], ["c"])),
+           DS.D("w-uncrossed-3", [DS.fac("c", DS.A2), e3w], DS.cross(["c", "e"], ["c"])),
+           DS.D("w-uncrossed-mintrials", [DS.fac("c", DS.A2), d2w], DS.cross(["c", "d"], ["c"], [["MinimumTrials", 3]])),
+           DS.D("w-crossed-mintrials", [c2w], DS.cross(["c"], ["c"], [["MinimumTrials", 5]])),
+           DS.D("w-crossed-derived-ref", [c2w, DS.fac("w", DS.A2), DS.within_eq("k", "c", "w", DS.A2, DS.A2)], DS.cross(["c", "w", "k"], ["c", "w"])),
+           DS.D("w-uncrossed-derived-ref", [DS.fac("c", DS.A2), d2w, DS.within_eq("k", "c", "d", DS.A2, ["x", "y"])], DS.cross(["c", "d", "k"], ["c"])),
+           DS.D("w-uncrossed-transition-ref", [DS.fac("c", DS.A2), d2w, DS.transition_rep("t", "d", ["x", "y"])], DS.cross(["c", "d", "t"], ["c"], [["MinimumTrials", 3]])),
+           DS.D("w-uncrossed-constraint-other", [DS.fac("c", DS.A2), d2w], DS.cross(["c", "d"], ["c"], [["AtMostKInARow", 1, "c", "r"], ["MinimumTrials", 4]])),
+           DS.D("w-multi-partly-crossed", [c2w, DS.fac("f", ["p", "q", "s"])], DS.multi(["c", "f"], [["c"], ["f"]], mode="weight")),
+           DS.D("w-repeat", [c2w], DS.repeat(DS.cross(["c"], ["c"]), [["MinimumTrials", 6]]))]
+    for d in DS.random_designs(sd, 60 if tier == "quick" else 600):
+        if any(w > 1 for F in d["factors"] if not model.is_derived(F) for _, w in F["levels"]):
+            # constraints that name a weighted level cannot be expressed on separately named copies
+            fm = model.factor_map(d)
+            def names_weighted(node):
+                for c in node.get("constraints", []):
+                    f = c[2] if c[0] in ("AtMostKInARow", "AtLeastKInARow", "ExactlyKInARow", "ExactlyK", "Pin") else None
+                    if f and not model.is_derived(fm[f]) and any(w > 1 for _, w in fm[f]["levels"]):
+                        return True
+                return any(names_weighted(node[k]) for k in ("block",) if k in node)
+            if not names_weighted(d["block"]):
+                out.append(d)
+    return out
+
+
+def c23(tier):
+    ck = Check("C23", tier, "exploration",
+               "Weighted levels vs their copy-expanded twin (relational, no oracle): each design with weighted levels of non-derived factors is built twice — "
+               "with weights, and with every weighted level replaced by separately named weight-1 copies (derivation tables re-keyed) — and both are exhausted "
+               "with IterateSATGen and RandomGen. Renaming the copies back, the sets of printed sequences must be equal; when the weighted factor is in every "
+               "crossing each printed sequence is one solution (no extra distinct solutions), otherwise the multisets must be equal (copies are distinct solutions).")
+    ds = [d for d in weighted_designs(tier, seed())]
+    small = []
+    for d in ds:
+        try:
+            if model.space_size(expand_weights(d)[0]) <= (40_000 if tier == "quick" else 400_000):
+                small.append(d)
+        except model.Unsupported:
+            small.append(d)
+    args = [(d,) + expand_weights(d) for d in small]
+    res = SC.runner.pmap(_twin_eval, args, jobs=14, timeout=60 if tier == "quick" else 300)
+    from collections import Counter
+    for (d, twin, back), (st, r) in zip(args, res):
+        if st != "ok":
+            ck.oblig(f"C23.twin({d['name']})", "E", "undecided", detail=f"worker {st}")
+            continue
+        for strat in ("IterateSATGen", "RandomGen"):
+            a, b = r.get(f"weighted:{strat}", {}), r.get(f"twin:{strat}", {})
+            if "exception" in a or "exception" in b:
+                if ("exception" in a) != ("exception" in b):
+                    ck.oblig(f"C23.twin({d['name']},{strat})", "E", "undecided", detail=f"only one side raised: {a.get('exception') or b.get('exception')} (C08)")
+                continue
+            if a["n"] >= 8000 or b["n"] >= 8000:
+                ck.oblig(f"C23.twin({d['name']},{strat})", "E", "undecided", detail="not exhausted")
+                continue
+            ck.count((d["name"], strat))
+            ka, kb = Counter(map(_t, a["keys"])), Counter(map(_t, b["keys"]))
+            g = None
+            try:
+                g = model.geometry(d)
+            except model.Unsupported:
+                pass
+            fm = model.factor_map(d)
+            weighted = [F["name"] for F in d["factors"] if not model.is_derived(F) and any(w > 1 for _, w in F["levels"])]
+            everywhere = g is not None and all(all(f in c["factors"] for c in g["crossings"]) for f in weighted)
+            bad = None
+            if a["T"] != b["T"] * 1 and not everywhere:
+                bad = f"trial counts differ: {a['T']} vs twin {b['T']}"
+            if set(ka) != set(kb):
+                bad = f"printed sequences differ: {len(set(ka) - set(kb))} only weighted, {len(set(kb) - set(ka))} only twin"
+            elif everywhere and any(n != 1 for n in ka.values()):
+                bad = "a weighted crossed level produced the same sequence as several distinct solutions"
+            elif not everywhere and g is not None and not any(f in c["factors"] for f in weighted for c in g["crossings"]) and ka != kb:
+                bad = "multiplicities differ from the copy-expanded twin"
+            ck.oblig(f"C23.twin({d['name']},{strat})", "E", "passed" if not bad else "failed", detail=bad)
+            if bad:
+                ck.violation("C23.twin", f"{_cls(d, 'twin')}:{d['name']}:{strat}", f"design {d['name']} ({strat}): {bad}", dict(replay_kind="pair", left=d, right=twin, rename_back=[list(k) + [v] for k, v in back.items()]),
+                             tags=dict(kind="twin", strategy=strat, features=SC.feature_class(d)))
+        ck.sample(dict(design=d["name"], weighted=r.get("weighted:IterateSATGen", {}).get("n"), twin=r.get("twin:IterateSATGen", {}).get("n")))
+    ck.rule = "one case per (weighted design, strategy): curated weighted designs (crossed, uncrossed, both, referenced by within-trial and transition derivations, under MinimumTrials, MultiCrossBlock, Repeat) + seeded ones"
+    ck.trust(*TRUST[:2])
+    ck.assume("constraints that name a weighted level are not expressible on separately named copies and are excluded from the twin comparison (they are covered by C01/C02 through the reference reading)")
+    return ck.finish()
